@@ -174,15 +174,19 @@ CHECKS = {
        "never change, across failing commits, discards, replication, close/reopen), committed_history_wellformed (PrevAlh chain, reported state = Alh of the last committed tx), "
        "discard_never_touches_committed, replicated_precommit_preserves_inv, step_preserves_inv_partial + open_preserves_inv_quiescent (BlRoot_k = reference Merkle root over the first "
        "BlTxID_k accumulated hashes; tie to C01's Hist), interleave_eq_serial (any interleaving of committers = serial run in id order, atomicity of the critical section stated as "
-       "the assumption s.mutex provides), and the NEGATIVE result open_breaks_binary_linking (witness run) for the defect found. Tie: every op of random sequential sequences, scripted "
+       "the assumption s.mutex provides), and the NEGATIVE result open_breaks_binary_linking (witness run) for the defect found; what Open reloads: precommitted_history_wellformed / open_reloaded_txs_chain (every "
+       "reloaded pre-committed tx has the next id and chains by PrevAlh to its predecessor, whatever stale records lie behind the live tail), reload_takes_longest_chaining_prefix, "
+       "reload_rejects_nonchaining_record, stale_record_with_next_id_reachable (witness: the id test alone is not enough). Tie: every op of random sequential sequences, scripted "
        "scenarios and concurrent runs on the real store.Open (configs crossed: synced/unsynced, embedded values, prealloc, header v0/v1, IO concurrency, tiny file sizes, small "
        "MaxActiveTransactions, external allowance, tree sync threshold) is sent to the Lean driver; assigned id, Alh, error class, committed/precommitted ids and hashes must agree "
        "step by step. Oracle (model-independent): record at ack / first sight, whole history re-read after every step through ReadTx, ReadTxHeader, ExportTx, ReadValue, TxReader "
-       "asc/desc, CommittedAlh against independent reference Alh / entries-root / Merkle-root computations.",
+       "asc/desc, CommittedAlh against independent reference Alh / entries-root / Merkle-root computations; after every reopen a reference log of every tx ever written (bytes + parent) "
+       "judges what Open reloaded, committed and pre-committed: ids, PrevAlh chain, provenance, parent, liveness; branch histories over several lives of one store with same-size "
+       "txs (in-place overwrites leaving aligned stale records behind the live tail) are generated for it.",
   note=TB + " Modelled rather than verified: atomicity of critical sections (lock granularity; goroutine interleavings below that and the watcher hubs are only sampled by the "
-       "concurrent runs), tx-log/commit-log at record granularity (byte layout, chunk rotation and flush timing are exercised by the harness, not modelled; bytes beyond a rewound "
-       "offset are assumed never to parse again, which the harness avoids relying on after a failed cLogBuf.put), the KV index (precondition verdicts are supplied by the harness), "
-       "a pooled tx holder's stale BlRoot when BlTxID = 0 (known finding; an input of the model ops, observed on the stored header). Four genuine defects are registered as known findings.",
+       "concurrent runs), tx-log/commit-log at record granularity (byte layout, chunk rotation and flush timing are exercised by the harness, not modelled; a tx-log write is in place and keeps "
+       "the records behind it iff the serialized sizes agree, otherwise they are treated as lost; the flush-dependent fate of a record written by a failed cLogBuf.put is avoided by the harness), the KV index (precondition verdicts are supplied by the harness), "
+       "a pooled tx holder's stale BlRoot when BlTxID = 0 (known finding; an input of the model ops, observed on the stored header). Five signatures of genuine defects are registered as known findings.",
   technique="Lean 4 proof (invariant + induction over op lists) + step-by-step differential correspondence + full-history re-read oracle on the real store",
   design="7/C02"),
  "C19": dict(
